@@ -1314,6 +1314,16 @@ class Builder:
                     edits.append(Edit(a + mm.start(), a + mm.end(), [Seg(" { Some(", "repo", fn=qual)]))
                     edits.append(Edit(cp, cp + 1, [Seg(") } else { None })", "repo", fn=qual)], order=5))
                     self.count("R18")
+                # `E.then_some(X)` -> `(if E { Some(X) } else { None })`  (the definition of bool::then_some; X is evaluated first there,
+                # which differs only if X has effects or panics: X is required to be a plain path)
+                for mm in re.finditer(r"\.\s*then_some\s*\(\s*[A-Za-z_][A-Za-z0-9_.]*\s*\)", m[a:b]):
+                    op = a + mm.start() + m[a + mm.start():a + mm.end()].index("(")
+                    cp = rs.match_close(m, op)
+                    k = chain_start(m, a, a + mm.start())
+                    edits.append(Edit(k, k, [Seg("(if ", "repo", fn=qual)]))
+                    edits.append(Edit(a + mm.start(), op + 1, [Seg(" { Some(", "repo", fn=qual)]))
+                    edits.append(Edit(cp, cp + 1, [Seg(") } else { None })", "repo", fn=qual)], order=5))
+                    self.count("R18")
             if rule[0] == "R14":
                 # `let P = E?;` where E ends in a call of a listed method: desugar `?` (Rust reference desugaring)
                 for meth in rule[1:]:
